@@ -89,7 +89,9 @@ pub struct LexGen {
 
 impl LexGen {
     pub fn new(fmt: Fmt, arity_valid: bool) -> LexGen {
-        LexGen { fmt, vocab: Vocab::of(fmt), names: safe_names(fmt), arity_valid }
+        let mut names = safe_names(fmt);
+        names.extend(near_keyword_names(fmt));
+        LexGen { fmt, vocab: Vocab::of(fmt), names, arity_valid }
     }
 
     fn e(&self) -> &'static narsese::conversion::string::impl_enum::NarseseFormat<&'static str> {
